@@ -122,7 +122,7 @@ def main():
                 killed = None
                 for c in checks:
                     rc, o = run([sys.executable, os.path.join(HERE, 'check.py'), c, '--tier', 'quick', '--no-selftest',
-                                 '--no-shrink', '--wall', wall], env, 900)
+                                 '--no-shrink', '--first', '--wall', wall], env, 900)
                     first = (re.findall(r'violated oracle[^\n]*|HARNESS-ERROR[^\n]*', o) or [''])[0][:200]
                     entry['results'][c] = {'rc': rc, 'first': first}
                     if rc == 1:
